@@ -62,8 +62,11 @@ func c05GeoDigest(g *geoip.File, ip netip.Addr) string {
 	if ip.Is6() && !ip.Is4In6() {
 		fam = netutil.AddrFamilyIPv6
 	}
+	// what Data said, read BEFORE the location is handed on (ecscache passes it to SubnetByLocation,
+	// access control reads its ASN, the query log and billing record it)
+	loc := fmt.Sprintf("%s/%s/%s/%d", l.Country, l.Continent, l.TopSubdivision, l.ASN)
 	sn, serr := g.SubnetByLocation(l, fam)
-	return fmt.Sprintf("%s/%s/%s/%d subnet=%v err=%v", l.Country, l.Continent, l.TopSubdivision, l.ASN, sn, serr)
+	return fmt.Sprintf("%s subnet=%v err=%v", loc, sn, serr)
 }
 
 func TestVerifC05GeoIPCache(t *testing.T) {
